@@ -20,7 +20,8 @@ RULE = ('1-D time-series files built through the public API: 1-200 records, '
         '0-8 header comment attributes, masked cells (none/some/all). Each '
         'file is written, parsed independently, re-opened explicitly and by '
         'auto-detection, cycled a second time, and a third time after '
-        'editing units on the file read back. non-trivial = >= 2 '
+        'editing units on the file read back; plus the bundled sample '
+        '(space-delimited, real header comments) cycled twice. non-trivial = >= 2 '
         'records or a masked cell; distinct = digest of the spec.')
 ASSUMPTIONS = [
     'files carry one missing code per variable (fill_value == missing_value)',
